@@ -2,11 +2,6 @@ package main
 
 import "golang.org/x/tools/go/ssa"
 
-type LoopCut struct{}
-
-func parseLoopCut(r *ObRun) *LoopCut                  { return nil }
-func (c *Ctx) runLoopCut(fn *ssa.Function, st *State) {}
-
 type AsmFunc struct{}
 
 func (ld *Loaded) asmFuncsOrNil() map[string]*AsmFunc { return nil }
